@@ -322,7 +322,8 @@ Definition send_try (f w : N) (x : fut) (s : st) : st * res :=
   match f_item x with
   | None => (setF f (set_done x) s, RReadyOk)
   | Some v =>
-      match try_send_core v s with
+      (* `let item_to_send = this.item.take().unwrap()`; on Full / Closed the item is put back *)
+      match try_send_core v (setF f (set_item None x) s) with
       | (s, TsOk) => (setF f (set_done (set_reg false (set_item None x))) s, RReadyOk)
       | (s, TsClosed) => (setF f (set_done (set_reg false x)) s, RReadyClosed)
       | (s, TsFull) =>
